@@ -512,7 +512,7 @@ func init() {
 	})
 
 	reg("C02", "C02.20", "T5,T2", "the version a query reports is the version of the state it scanned: read under the scan's read lock and handed on unchanged by Query", queryVersionRule)
-	reg("C02", "C02.4", "T3,T5,T2", "store indexes st/mi/vi/version: fixed writer set, every access under the lock (write lock for writes), version bumped before indexing, strict version search", func(o *Ob) {
+	reg("C02", "C02.4", "T3,T5,T2", "store indexes st/mi/vi/version: fixed writer set, every access under the lock (write lock for writes), version bumped before indexing and on every snapshot load, strict version search", func(o *Ob) {
 		e := o.E
 		T := "am/silence.Silences"
 		exempt := map[string]string{
@@ -556,6 +556,12 @@ func init() {
 		if lv := e.StoresTo(ls, "recv.version"); o.Check(len(lv) == 1, "load-bump", "loadSnapshot must set the store version exactly once", nil) {
 			after := e.X(ls, lv[0].Val)
 			o.Check(after == "(recv.version + 1)", "load-bump-value", "loading a snapshot must advance the version, sets "+after, lv[0])
+			// … on every load: the bump and the publication of the loaded state go together
+			for _, pub := range e.StoresTo(ls, "recv.st") {
+				before := !(&Walk{Fn: ls, Barrier: IsInstr(lv[0])}).FromEntry().Has(pub)
+				after := len((&Walk{Fn: ls, Barrier: IsInstr(lv[0])}).After(pub).Returns()) == 0
+				o.Check(before || after, "load-bump-forced", "a snapshot can be loaded without advancing the store version: its silences are indexed at a version the store never reaches, a cache at that version never evaluates them and the loaded silences do not mute", pub)
+			}
 			adds := e.Calls(ls, "(*am/silence.versionIndex).add")
 			o.Check(len(adds) >= 1, "load-vi-add", "loadSnapshot no longer fills the version index", nil)
 			for _, a := range adds {
